@@ -13,6 +13,7 @@
 
     No proofs in this file. *)
 From Coq Require Import List ZArith Bool Arith.
+From LV Require Import Reactive.RxUtil.
 Import ListNotations.
 
 (** the abort handle of a dispatch: still held by the caller, consumed by [abort()] (message
@@ -51,13 +52,6 @@ Inductive event :=
 | Poll (k : nat) (c : bool)        (* c: take the abort branch if both are ready (pre-fix only) *)
 | Clear
 | RunAll (picks : list nat) (c : bool).
-
-Fixpoint upd {A} (k : nat) (f : A -> A) (l : list A) : list A :=
-  match l, k with
-  | [], _ => []
-  | x :: t, O => f x :: t
-  | x :: t, S k' => x :: upd k' f t
-  end.
 
 Definition set_tasks (s : astate) (ts : list task) : astate :=
   mkA (in_flight s) (input s) (value s) (version s) (dispatched s) ts (wlog s).
@@ -128,12 +122,6 @@ Definition poll (biased : bool) (k : nat) (c : bool) (s : astate) : astate :=
 
 Definition is_ready (t : task) : bool := t_woken t && negb (t_done t).
 
-(** indices (counted from [i]) of the elements satisfying [p], ascending *)
-Fixpoint idx_from {A} (p : A -> bool) (i : nat) (l : list A) : list nat :=
-  match l with
-  | [] => []
-  | x :: r => if p x then i :: idx_from p (S i) r else idx_from p (S i) r
-  end.
 Definition ready (s : astate) : list nat := idx_from is_ready 0 (tasks s).
 Definition idle (s : astate) : bool := match ready s with [] => true | _ => false end.
 
